@@ -35,7 +35,7 @@ var crashWorkloads = map[string][]cwStep{
 	// W5: an Init whose seed set is larger than one BadgerDB transaction (the database is opened with small
 	// tables for this workload): it must seed everything or nothing, at every kill point
 	"W5": {{Kind: "create", ID: "x", N: 1, K: "kx"}, {Kind: "biginit"}, {Kind: "create", ID: "y", N: 2, K: "ky"}, {Kind: "close"}},
-	"W3": {{Kind: "create", ID: "z", N: 9, K: "kz"}, {Kind: "init"}, {Kind: "delete", ID: "z"}, {Kind: "create", ID: "a", N: 5, K: "k5"}, {Kind: "reopen"}, {Kind: "init"}, {Kind: "create", ID: "c", N: 3, K: ""}, {Kind: "close"}},
+	"W3": {{Kind: "create", ID: "z", N: 9, K: "kz"}, {Kind: "init"}, {Kind: "delete", ID: "z"}, {Kind: "create", ID: "a", N: 5, K: "k5"}, {Kind: "reopen"}, {Kind: "init"}, {Kind: "create", ID: "c", N: 3, K: "@"}, {Kind: "close"}},
 }
 
 const cwBigSeeds = 2500
@@ -51,9 +51,13 @@ func cwBigInit(st *badgerstore.Store) error {
 
 var cwSeeds = []cwStep{{ID: "a", N: 1, K: "ka"}, {ID: "b", N: 2, K: "kb"}}
 
+// cwValue: k "" = no k member (not indexed by ik), k "@" = a k member holding the empty string (indexed under
+// the empty, non-nil key)
 func cwValue(n int, k string) map[string]interface{} {
 	m := map[string]interface{}{"n": float64(n)}
-	if k != "" {
+	if k == "@" {
+		m["k"] = ""
+	} else if k != "" {
 		m["k"] = k
 	}
 	return m
@@ -511,7 +515,10 @@ func cwContent(db *badger.DB, prefix string) (cwModel, []string) {
 				m.vals[k[len(p):]] = "CORRUPT:" + v
 				continue
 			}
-			ks, _ := val["k"].(string)
+			ks, has := val["k"].(string)
+			if has && ks == "" {
+				ks = "@"
+			}
 			n, _ := val["n"].(float64)
 			m.vals[k[len(p):]] = fmt.Sprintf("%d/%s", int(n), ks)
 		default:
@@ -599,7 +606,13 @@ func cwJudge(imgDir, wl, prefix string, acked int, ackResults []string, emit fun
 					n, _ := strconv.Atoi(f[0])
 					key = fmt.Sprintf("%03d", n)
 				}
-				if (idx == "ik" && key == "") || !strings.HasPrefix(key, pfx) {
+				if idx == "ik" && key == "" {
+					continue // no k member: not indexed
+				}
+				if idx == "ik" && key == "@" {
+					key = "" // indexed under the empty key
+				}
+				if !strings.HasPrefix(key, pfx) {
 					continue
 				}
 				es = append(es, ent{key, id})
